@@ -1787,8 +1787,9 @@ var (
 	vReRen   = regexp.MustCompile(`^\d+\s+rename(?:at2?)?\(`)
 	vReUnl   = regexp.MustCompile(`^\d+\s+unlink(?:at)?\(.*= 0$`)
 	// "<pid> write(3, "..."..., 32768 <unfinished ...>"  /  "<pid> <... write resumed>) = 32768"
+	vReStoreCall  = regexp.MustCompile(`^\d+\s+(?:open|openat|creat|write|pwrite64|ftruncate|truncate|fallocate|rename|renameat|renameat2|unlink|unlinkat)\(`)
 	vReUnfinished = regexp.MustCompile(`^((\d+)\s+.*) <unfinished \.\.\.>$`)
-	vReResumed    = regexp.MustCompile(`^(\d+)\s+<\.\.\. \w+ resumed>(.*)$`)
+	vReResumed    = regexp.MustCompile(`^(\d+)\s+<\.\.\. (\w+) resumed>(.*)$`)
 )
 
 // vParseTrace turns the strace log of one store into length effects, rendered like the oracle's `trace` command:
@@ -1812,13 +1813,22 @@ func vParseTrace(t *testing.T, file string) []string {
 		if m := vReResumed.FindStringSubmatch(line); m != nil {
 			head, ok := pending[m[1]]
 			if !ok {
+				if !vReStoreCall.MatchString(m[1] + " " + m[2] + "(") {
+					continue // the second half of a syscall this parser does not speak about
+				}
 				t.Fatalf("verif: strace resumed half without its first half: %q", line)
 			}
 			delete(pending, m[1])
-			line = head + m[2]
+			line = head + m[3]
 		}
 		switch {
-		case line == "" || strings.Contains(line, "+++ exited") || strings.Contains(line, "--- SIG") || strings.Contains(line, "<detached ...>"):
+		case line == "" || strings.Contains(line, "+++ exited") || strings.Contains(line, "+++ killed") || strings.Contains(line, "--- SIG") || strings.Contains(line, "<detached ...>"):
+		case !vReStoreCall.MatchString(line):
+			// not one of the store syscalls this parser speaks about: strace noise that depends on timing ("???() = ?"
+			// for a thread that exits while strace attaches, exit_group, ...).  Lines that DO name a store syscall and
+			// cannot be parsed still fail closed below.
+		case strings.HasSuffix(line, "= ?"):
+			// the syscall never returned (the process exited during it): no effect to record
 		case vReOpen.MatchString(line):
 			flags := vReOpen.FindStringSubmatch(line)[1]
 			if strings.Contains(line, "= -1") || (strings.Contains(flags, "O_RDONLY") && !strings.Contains(flags, "O_CREAT")) {
